@@ -11,6 +11,7 @@ from numpy.typing import NDArray  # noqa: TC002
 from ropt.config.enopt import EnOptConfig
 from ropt.ensemble_evaluator import EnsembleEvaluator
 from ropt.enums import EventType, OptimizerExitCode
+from ropt.exceptions import OptimizationAborted
 from ropt.optimization import EnsembleOptimizer
 from ropt.plan import Event, Plan
 from ropt.plugins.plan.base import PlanStep
@@ -90,6 +91,30 @@ class DefaultOptimizerStep(PlanStep):
         self._nested_optimization = nested_optimization
         self._metadata = metadata
 
+        try:
+            exit_code = self._run(variables)
+        except OptimizationAborted as exc:
+            exit_code = exc.exit_code
+
+        if exit_code == OptimizerExitCode.USER_ABORT:
+            self.plan.abort()
+
+        try:
+            self.emit_event(
+                Event(
+                    event_type=EventType.FINISHED_OPTIMIZER_STEP,
+                    config=self._config,
+                    source=self.id,
+                )
+            )
+        except OptimizationAborted as exc:
+            exit_code = exc.exit_code
+            if exit_code == OptimizerExitCode.USER_ABORT:
+                self.plan.abort()
+
+        return exit_code
+
+    def _run(self, variables: ArrayLike | None) -> OptimizerExitCode:
         self.emit_event(
             Event(
                 event_type=EventType.START_OPTIMIZER_STEP,
@@ -123,20 +148,7 @@ class DefaultOptimizerStep(PlanStep):
             msg = "Nested optimization detected: parallel evaluation not supported. "
             raise RuntimeError(msg)
 
-        exit_code = ensemble_optimizer.start(variables)
-
-        if exit_code == OptimizerExitCode.USER_ABORT:
-            self.plan.abort()
-
-        self.emit_event(
-            Event(
-                event_type=EventType.FINISHED_OPTIMIZER_STEP,
-                config=self._config,
-                source=self.id,
-            )
-        )
-
-        return exit_code
+        return ensemble_optimizer.start(variables)
 
     def emit_event(self, event: Event) -> None:
         """Emit an event.
